@@ -79,6 +79,10 @@ def build(rng, tier):
         inp = gen.sp_input(r2)
         n = 1 + max(max(a, b) for a, b, _ in inp[0])
         extra = [(a, b, w) for a, b, w in [(r2.below(n), r2.below(n), r2.range(1, 9)) for _ in range(2)] if a != b and not any(x == a and y == b for x, y, _ in inp[0])]
+        if j % 2 == 1:
+            # a cheap shortcut from a query node: improves values of EXISTING keys in place (no relation grows but `edge`)
+            extra = [(0, b, 1) for b in range(2, n) if not any(x == 0 and y == b and w <= 1 for x, y, w in inp[0])][:1]
+            inp = dict(inp); inp[0] = [t for t in inp[0] if not (t[0] == 0 and extra and t[1] == extra[0][1])] + ([(0, extra[0][1], 60)] if extra else [])
         inst = f"hsp_{j}"
         ops = [f"eng new {inst} hsp"] + engcheck.load_ops(inst, inp) + [f"eng run {inst}", f"eng dump {inst}", f"eng run {inst}", f"eng dump {inst}"]
         marks = ["same"]
